@@ -71,6 +71,8 @@ func smbC05Case(c *h.Ctx, mk func() command_interface.CommandInterface, k *smbCa
 	case merr != nil:
 		c.Fail(site, "marshal-error@"+k.patClass(), merr.Error(), k.sample())
 	default:
+		// the length a string block announces is the length of its Buffer, whatever the Length component held before
+		smbStaleLengthRoute(c, mk, k0, site, lib)
 		if len(k.Alt) > 0 && len(lib) == len(k.Alt[0].Wire) && len(lib) != len(k.Wire) {
 			k = k.Alt[0] // the library left the zero-valued optional field out: the other legal encoding is the reference
 		}
